@@ -1164,7 +1164,9 @@ class DomainMapping(CanBehaveLikeAVariable[T], ABC):
         self._eval_parent_ = parent
 
         if self._id_ in sources:
-            yield OperationResult(sources, self._is_false_, self)
+            yield self._build_operation_result_and_update_truth_value_(
+                OperationResult(sources, False, self), sources[self._id_]
+            )
             return
 
         yield from (
@@ -1185,11 +1187,15 @@ class DomainMapping(CanBehaveLikeAVariable[T], ABC):
         :param current_value: The current value of this operation that is derived from the child result.
         :return: The operation result.
         """
+        # The truth value only matters when the expression itself is used as a condition. It must not be taken from the
+        # flag of the node otherwise, the flag can stem from another evaluation in which this expression was a condition.
+        is_false = False
         if isinstance(self._parent_, LogicalOperator) or self is self._conditions_root_:
-            self._is_false_ = not bool(current_value)
+            is_false = not bool(current_value)
+            self._is_false_ = is_false
         return OperationResult(
             {**child_result.bindings, self._id_: current_value},
-            self._is_false_,
+            is_false,
             self,
         )
 
